@@ -160,6 +160,10 @@ def run_main(argv, trigger=None, stdin=None, close_stdin_at_end=True, keep_input
     pq.PcfgQueue.next = rec_next
     orig_qinit = pq.PcfgQueue.__init__
     def rec_qinit(self, *a, **k):
+        # the same meeting point before the queue is built / restored: a helper thread that is already running at this moment sees a request that was typed ahead
+        if st.script and ctx.kthreads():
+            wait_until(lambda: not st.script and (st.waiting or not any(t.is_alive() for t in ctx.kthreads())), timeout=1.0)
+            res.events.append(('QUEUE-BUILD-WITH-PENDING-REQUEST', len(res.pops)))
         orig_qinit(self, *a, **k)
         # the queue is ready (built or restored).  A request that was typed before the program looked - and a helper thread that is already running - get the
         # time to meet here, whatever the speed of the machine: a tool that starts its keyboard thread before the queue is ready sees the request at this point
